@@ -433,6 +433,8 @@ _upd('C04', text_add='Added: Parser.p_error contracts (the place where an automa
 _upd('C07', text_add='Added: the obfuscation rule set plugs in only the identifier resolver, its token handler and one pre-walk hook.')
 _upd('C09', text_add='Added: encode_sourcemap builds exactly the V3 document; a multi-call scenario sharing book / sources / names.')
 _upd('C16', text_add='Added: walk with a condition given still yields every node.')
+_upd('C08', text_add='Added: the two token handlers under contract (what a fragment records; a renamed identifier records its original name and takes the position of that name).',
+     note='Trusted: C11, ply tracking contract, induction hypothesis for children. Known finding F21 (first layout token of a later file carries no source).')
 _upd('C17', text_add='Added: building the non-optimised parser is itself an obligation (ply validates rules and token lists only in that mode).')
 _upd('C18', text_add=('Added: externals may raise non-Exception failures (KeyboardInterrupt-like) as well; the two normalisation switches reach sourcemap.write / '
                       'write_sourcemap under their own names; node lists; utils.normrelpath wiring.'))
